@@ -13,6 +13,7 @@ func init() {
 	nd.Register("VerifC07Translate", VerifC07Translate)
 	nd.Register("VerifC07Poll", VerifC07Poll)
 	nd.Register("VerifC07Queue", VerifC07Queue)
+	nd.Register("VerifC07QueueStep", VerifC07QueueStep)
 	nd.Register("VerifC07Table", VerifC07Table)
 }
 
@@ -79,6 +80,12 @@ func VerifC07Translate() {
 	st, c0, n := c07state(l, false)
 	q := append([]trackerUpdate(nil), st.queue...)
 	nd.Reach("state")
+	c07checkTranslate(st, q, c0, n)
+}
+
+// c07checkTranslate: the translation laws of st against the model (client count c0, model
+// queue q, true count n).
+func c07checkTranslate(st *SessionTracker, q []trackerUpdate, c0, n uint32) {
 	// decode
 	p := nd.Uint32()
 	nd.Assume(p >= 1)
@@ -96,6 +103,54 @@ func VerifC07Translate() {
 	back := c07decodeRef(q, enc)
 	nd.Assert(nd.Implies(enc != 0, back == m), "encode-then-decode-identifies-same-message")
 	nd.Assert(nd.Implies(nd.And(want != 0, want == m), enc == p), "decode-then-encode-identifies-same-message")
+}
+
+// VerifC07QueueStep: the inductive step for the Queue* operations: from an arbitrary
+// session state one real MailboxTracker.Queue* call is made; afterwards the translation
+// laws hold against the model queue extended by that update (whatever the tracker's own
+// queue looks like), and a poll that may report everything brings the client to the true
+// count.
+func VerifC07QueueStep() {
+	l := nd.Concretize(nd.Choice(nd.Param("l") + 1))
+	st, c0, n := c07state(l, false)
+	mt := st.mailbox
+	q := append([]trackerUpdate(nil), st.queue...)
+	x := nd.Uint32()
+	switch nd.Concretize(nd.Choice(4)) {
+	case 0:
+		nd.Assume(x >= 1)
+		nd.Assume(x <= n)
+		mt.QueueExpunge(x)
+		q = append(q, trackerUpdate{expunge: x})
+		n--
+	case 1:
+		nd.Assume(x >= n)
+		nd.Assume(x != 0)
+		mt.QueueNumMessages(x)
+		q = append(q, trackerUpdate{numMessages: x})
+		n = x
+	case 2:
+		mt.QueueMailboxFlags(nil)
+	case 3:
+		nd.Assume(x >= 1)
+		nd.Assume(x <= n)
+		mt.QueueMessageFlags(x, imap.UID(x), nil, nil)
+	}
+	nd.Reach("queued-from-arbitrary-state")
+	nd.Assert(mt.numMessages == n, "mailbox-count-after-update")
+	c07checkTranslate(st, q, c0, n)
+	// the session's own queue, replayed from the client count, ends at the true count
+	cnt := c0
+	for _, u := range st.queue {
+		if u.expunge != 0 {
+			nd.Assert(nd.And(u.expunge >= 1, u.expunge <= cnt), "queued-expunge-outside-client-view")
+			cnt--
+		} else if u.numMessages != 0 {
+			nd.Assert(u.numMessages >= cnt, "queued-exists-shrinks-client-view")
+			cnt = u.numMessages
+		}
+	}
+	nd.Assert(cnt == n, "pending-updates-do-not-lead-to-the-true-mailbox")
 }
 
 func c07digit(v uint32) string { return string([]byte{'0' + byte(v)}) }
